@@ -99,3 +99,61 @@ CONTRACTS.append(Contract(
     kinds={'nocasedict.values': ('ref', 'CIMQualifier')},
     ensures=[('a-PROPERTY.REFERENCE-element', 'isinstance(result, _cim_xml.PROPERTY_REFERENCE)')],
     raises={}))
+
+value_c = Contract(X + 'VALUE.__init__', trusted=True, raises={})
+value_null_c = Contract(X + 'VALUE_NULL.__init__', trusted=True, raises={})
+atomic_c = Contract('pywbem/_cim_types.py::atomic_to_cim_xml', returns=Opt(Str), trusted=True,
+                    requires=[('the-value-itself-is-encoded', 'obj is caller_self.value or isinstance(caller_self.value, list)')],
+                    notes='leaf codec: proved above for booleans, integers, strings and NULL')
+emb_tocimxml_c = Contract(O + 'CIMInstance.tocimxml', returns=Ref('Element'), trusted=True)
+emb_cls_tocimxml_c = Contract(O + 'CIMClass.tocimxml', returns=Ref('Element'), trusted=True)
+toxml_c = Contract('external::Element.toxml', sig=['self'], returns=Str, trusted=True)
+property_c = Contract(
+    X + 'PROPERTY.__init__', trusted=True, raises={},
+    requires=[('every-attribute-is-handed-over',
+               COMMON + ' and type_ == caller_self.type and embedded_object == caller_self.embedded_object'),
+              ('NULL-value-means-no-VALUE-child', '(value is None) == (caller_self.value is None)')])
+SCALAR_VALUE = Union(NoneT, Str, Bool, Ref('Uint8'), Ref('CIMDateTime'))
+CONTRACTS.append(Contract(
+    O + 'CIMProperty.tocimxml', label='scalar value',
+    params={'self': Obj('CIMProperty', is_array=Lit(False), value=SCALAR_VALUE, **dict(PROP, embedded_object=Lit(None)))},
+    requires=["self.type != 'reference'"],
+    callees={'CIMQualifier.tocimxml': qual_tocimxml_c, 'VALUE.__init__': value_c, 'PROPERTY.__init__': property_c,
+             'atomic_to_cim_xml': atomic_c},
+    kinds={'nocasedict.values': ('ref', 'CIMQualifier')},
+    ensures=[('a-PROPERTY-element', 'isinstance(result, _cim_xml.PROPERTY)')],
+    raises={}))
+CONTRACTS.append(Contract(
+    O + 'CIMProperty.tocimxml', label='scalar embedded object',
+    params={'self': Obj('CIMProperty', is_array=Lit(False), value=Union(NoneT, Ref('CIMInstance'), Ref('CIMClass')),
+                        **dict(PROP, type=Lit('string'), embedded_object=Str))},
+    callees={'CIMQualifier.tocimxml': qual_tocimxml_c, 'VALUE.__init__': value_c, 'PROPERTY.__init__': property_c,
+             'CIMInstance.tocimxml': emb_tocimxml_c, 'CIMClass.tocimxml': emb_cls_tocimxml_c, 'toxml': toxml_c},
+    kinds={'nocasedict.values': ('ref', 'CIMQualifier')},
+    ensures=[('a-PROPERTY-element', 'isinstance(result, _cim_xml.PROPERTY)')],
+    raises={}))
+
+value_array_c = Contract(
+    X + 'VALUE_ARRAY.__init__', trusted=True, raises={},
+    requires=[('one-child-element-per-array-item-in-order', 'len(values) == len(caller_self.value)')])
+property_array_c = Contract(
+    X + 'PROPERTY_ARRAY.__init__', trusted=True, raises={},
+    requires=[('every-attribute-is-handed-over',
+               COMMON + ' and type_ == caller_self.type and embedded_object == caller_self.embedded_object '
+               'and array_size == caller_self.array_size'),
+              ('NULL-value-means-no-VALUE.ARRAY-child', '(value_array is None) == (caller_self.value is None)')])
+atomic_item_c = Contract('pywbem/_cim_types.py::atomic_to_cim_xml', returns=Opt(Str), trusted=True)
+CONTRACTS.append(Contract(
+    O + 'CIMProperty.tocimxml', label='array value',
+    params={'self': Obj('CIMProperty', is_array=Lit(True), value=Opt(ListOf(('opt', 'str'))),
+                        **dict(PROP, embedded_object=Lit(None)))},
+    requires=["self.type != 'reference'"],
+    consts={'SEND_VALUE_NULL': Bool},
+    callees={'CIMQualifier.tocimxml': qual_tocimxml_c, 'VALUE.__init__': value_c, 'VALUE_NULL.__init__': value_null_c,
+             'VALUE_ARRAY.__init__': value_array_c, 'PROPERTY_ARRAY.__init__': property_array_c,
+             'atomic_to_cim_xml': atomic_item_c},
+    kinds={'nocasedict.values': ('ref', 'CIMQualifier'), 'array_xml': 'ref'},
+    loops={1: LoopSpec(target='v', types={'v': Opt(Str)}, modifies=['array_xml'],
+                       invariant=[('one-element-per-item-so-far', 'len(array_xml) == _i')])},
+    ensures=[('a-PROPERTY.ARRAY-element', 'isinstance(result, _cim_xml.PROPERTY_ARRAY)')],
+    raises={}))
